@@ -21,7 +21,8 @@ import pickle
 from .. import common, impl, tlc, tlcx, vocab
 
 RULE = ("every transition of the TLC-explored state graph of spec/DictObj.tla (all operation sequences up to the "
-        "history bound over 3 keys x case, both default hooks; printed once each by an ACTION_CONSTRAINT) and "
+        "history bound over 3 keys x case, both default hooks, values 0/1/2/None/[]/{}/[{}]/[[1]]/{k1:[[1],2]}; printed "
+        "once each by an ACTION_CONSTRAINT) and "
         "every action of TLC-simulated walks of depth 40: real result/exception class, list(d.items()) with "
         "value identities, class and default_factory of copies == the spec's; spec refines PlainOD")
 
@@ -32,11 +33,11 @@ INVARIANTS = ["KeysLowerUnique", "HeapClosed"]
 PROPERTIES = ["FirstInsertionOrder", "CopyLaws", "AutoCreation", "Refines"]
 
 
-def constants(cls="ci", keys=None, steps=3, pairs=1, setvals=("i1", "i2", "list", "dict", "ldict"),
+def constants(cls="ci", keys=None, steps=3, pairs=1, setvals=("i1", "i2", "list", "dict", "ldict", "llist", "dll"),
               pairvals=("i1", "list"), factories=("None", "Dict"), adopt=False, mode="graph", bug="none"):
     keys = keys or (KEYS_CI if cls == "ci" else KEYS_DOD)
     nk = len({k.lower() for k in keys})
-    return {"Keys": set(keys), "Cls": cls, "MaxId": 4 * nk + 2 * pairs + 4, "MaxSteps": steps, "MaxPairs": pairs,
+    return {"Keys": set(keys), "Cls": cls, "MaxId": 6 * nk + 3 * pairs + 4, "MaxSteps": steps, "MaxPairs": pairs,
             "SetVals": set(setvals), "PairVals": set(pairvals), "Factories": set(factories),
             "AdoptSet": "@{FALSE, TRUE}" if adopt else "@{FALSE}", "Mode": mode, "Bug": bug}
 
@@ -96,10 +97,10 @@ def materialise(cls, v, hp, B):
     o = hp[i]
     if o["k"] == "list":
         x = [materialise(cls, e, hp, B) for e in o["elems"]]
-    elif o["k"] == "dict":
-        x = {}
-    elif o["k"] == "ci":
-        x = CLASSES[cls]()
+    elif o["k"] in ("dict", "ci"):                  # the elems of a dict object are stored under k1, k2, ...
+        x = {} if o["k"] == "dict" else CLASSES[cls]()
+        for j, e in enumerate(o["elems"]):
+            x["k%d" % (j + 1)] = materialise(cls, e, hp, B)
     else:
         raise common.MachineryFailure("argument refers to a free heap cell %s" % i)
     B.bind(i, x)
@@ -144,8 +145,12 @@ def compare_value(cls, v, x, hp, B, where):
             raise Mismatch("value", "%s: expected a list of %d, got %r" % (where, len(o["elems"]), x))
         for j, e in enumerate(o["elems"]):
             compare_value(cls, e, x[j], hp, B, "%s[%d]" % (where, j))
-    elif len(x) != 0:
-        raise Mismatch("value", "%s: expected an empty dict, got %r" % (where, x))
+    else:
+        want_keys = ["k%d" % (j + 1) for j in range(len(o["elems"]))]
+        if list(x.keys()) != want_keys:
+            raise Mismatch("value", "%s: expected a dict with keys %r, got %r" % (where, want_keys, x))
+        for j, e in enumerate(o["elems"]):
+            compare_value(cls, e, dict.__getitem__(x, want_keys[j]), hp, B, "%s[%r]" % (where, want_keys[j]))
 
 
 def compare_dict(cls, items, factory, d, hp, B, where):
@@ -279,7 +284,10 @@ def src_value(v, hp):
     o = hp.get(v["n"])
     if o is None:
         return "obj%d" % v["n"]
-    return {"list": "[%s]" % ", ".join(src_value(x, hp) for x in o["elems"]), "dict": "{}", "ci": "C()"}[o["k"]]
+    if o["k"] == "list":
+        return "[%s]" % ", ".join(src_value(x, hp) for x in o["elems"])
+    inner = "{%s}" % ", ".join("'k%d': %s" % (j + 1, src_value(x, hp)) for j, x in enumerate(o["elems"]))
+    return inner if o["k"] == "dict" else ("C(None, %s)" % inner if o["elems"] else "C()")
 
 
 def src(cls, e):
@@ -436,21 +444,24 @@ def plan(tier, seed):
     jobs = []
     if tier == "quick":
         for f in ("None", "Dict"):
-            jobs.append(("graph", "ci", "h3p1-" + f, graph_job("c17_g_ci_h3_%s" % f, cls="ci", steps=3, pairs=1, factories=(f,))))
+            jobs.append(("graph", "ci", "h3p1-" + f, graph_job("c17_g_ci_h3_%s" % f, cls="ci", steps=3, pairs=1, factories=(f,),
+                                                               setvals=("i1", "i2", "list", "ldict", "llist", "dll"))))
             jobs.append(("graph", "ci", "h2p2-" + f, graph_job("c17_g_ci_h2p2_%s" % f, cls="ci", steps=2, pairs=2,
-                                                               setvals=("i1", "list"), factories=(f,))))
-        jobs.append(("graph", "dod", "h3p1", graph_job("c17_g_dod", cls="dod", steps=3, pairs=1)))
-        nw, nwd = 120, 40
+                                                               setvals=("i0", "dict", "llist"), factories=(f,))))
+        jobs.append(("graph", "dod", "h3p1", graph_job("c17_g_dod", cls="dod", steps=3, pairs=1,
+                                                       setvals=("i1", "list", "ldict", "llist"))))
+        nw, nwd = 60, 20
     else:
         for f in ("None", "Dict"):
-            jobs.append(("graph", "ci", "h4p1-" + f, graph_job("c17_g_ci_h4_%s" % f, cls="ci", steps=4, pairs=1, factories=(f,))))
+            jobs.append(("graph", "ci", "h4p1-" + f, graph_job("c17_g_ci_h4_%s" % f, cls="ci", steps=4, pairs=1, factories=(f,),
+                                                               setvals=("i1", "i2", "list", "ldict", "llist", "dll"))))
             jobs.append(("graph", "ci", "h3p2-" + f, graph_job("c17_g_ci_h3p2_%s" % f, cls="ci", steps=3, pairs=2,
-                                                               setvals=("i1", "list", "ldict"), factories=(f,))))
-            jobs.append(("graph", "ci", "4keys-" + f, graph_job("c17_g_ci_4k_%s" % f, cls="ci", steps=3, pairs=1, setvals=("i1", "list"),
+                                                               setvals=("i0", "list", "llist", "dll"), factories=(f,))))
+            jobs.append(("graph", "ci", "4keys-" + f, graph_job("c17_g_ci_4k_%s" % f, cls="ci", steps=3, pairs=1, setvals=("i1", "llist"),
                                                                 keys=KEYS_CI | {"classes", "Classes"}, factories=(f,))))
-        jobs.append(("graph", "dod", "h4p1", graph_job("c17_g_dod", cls="dod", steps=4, pairs=1, setvals=("i1", "list", "ldict"))))
+        jobs.append(("graph", "dod", "h4p1", graph_job("c17_g_dod", cls="dod", steps=4, pairs=1, setvals=("i1", "list", "ldict", "llist"))))
         nw, nwd = 1000, 300
-    nsplit = 2 if tier == "quick" else 6
+    nsplit = 3 if tier == "quick" else 6
     for i in range(nsplit):
         jobs.append(("walk", "ci", "d40-%d" % i, walk_job("c17_w_ci_%d" % i, nw // nsplit, 40, seed * 100 + i + 1, cls="ci", pairs=2,
                                                           keys=KEYS_CI | {"classes", "Classes"})))
@@ -461,6 +472,7 @@ def plan(tier, seed):
                                                       keys={"a", "A", "layers", "LAYERS"}, setvals=("i1", "list"), pairvals=("i1",))))
     for j in jobs:
         j[3]["env"] = JVM
+    jobs.sort(key=lambda j: 0 if j[0] == "walk" else 1)        # the walks take longest: start them first
     return jobs
 
 
